@@ -872,6 +872,8 @@ func gen(x *hxlib.Ctx) {
 		x.Emit(hxlib.Case{Kind: "canary", Canary: true, Coq: coqVerify(c, c.h, c.vals, false, items, "OReject")})
 		x.Emit(hxlib.Case{Kind: "canary", Canary: true, Coq: coqVerify(c, c.h, c.vals, false, items[:2], "(OAccept [true; true; false; false])")})
 		x.Emit(hxlib.Case{Kind: "canary", Canary: true, Coq: "(CEnough 2 3 true)"})
+		x.Emit(hxlib.Case{Kind: "canary", Canary: true, Coq: "(CChain 1 0 [] None [1] [] true)"})
+		x.Emit(hxlib.Case{Kind: "canary", Canary: true, Coq: "(CFastSync 1 0 [] None (1, []) [1] [] true)"})
 	}
 }
 
